@@ -370,15 +370,19 @@ def plan(tier: str) -> list[tuple]:
                     add(cfg, seed, 3 if e else 2, "full", "full")
                 else:
                     add(cfg, seed, 2 if e else 1, "full", "full")
-            else:
+            elif cfg == "mem":
                 add(cfg, seed, 4 if e else 3, "full", "full")
+            elif cfg in deep:
+                add(cfg, seed, 4 if e else 3, "small", "full")
+            else:
+                add(cfg, seed, 3 if e else 2, "full", "full")
     for cfg in backends.SLOW:
         for seed in SEEDS:
             e = seed == "empty"
             if tier == "quick":
                 add(cfg, seed, 2 if e else 1, "small", "light")
             else:
-                add(cfg, seed, 3 if e else 2, "full", "full")
+                add(cfg, seed, 3 if e else 2, "small", "light")
     return tasks
 
 
@@ -421,7 +425,7 @@ def run(tier: str, replay: str | None = None) -> int:
         exhaustive=True,
         rule="every history up to the depth bound per (configuration, seeded non-initial state), de-duplicated on (model state, implementation digest)",
         extra={"bounds": {"quick": "fast backends: depth 3 from empty, 2 from 8 seeded states (full alphabet, full observation); SQLite-backed: depth 2 / 1 (small alphabet, light observation)",
-                          "thorough": "fast: 4 / 3; SQLite-backed: 3 / 2 full"}[tier]},
+                          "thorough": "mem: depth 4 / 3 full alphabet; jlist, jfile-sym, grpc(mem): 4 / 3 small alphabet; other fast: 3 / 2 full; SQLite-backed: 3 / 2 small alphabet, light observation"}[tier]},
     )
 
 
